@@ -17,7 +17,7 @@ MANIFEST = dict(
     technique='Coq proof (loop invariants with fuel, bit-level rewriting, integer arithmetic over N/Z, finite sweeps by vm_compute) about '
               'algorithm-faithful hand models of the rendered C, C++ and Python support code; extracted-model vs. implementation '
               'correspondence on exhaustive small-parameter sweeps; independent big-integer oracle as falsifier',
-    text='30 theorems (mostly conjunctions of lemmas of Prims/*Thm.v, each named in the proof) + 5 examples in coq/theories/Properties/C14.v, each for EVERY offset, length, buffer, declared size and value (no '
+    text='35 theorems (mostly conjunctions of lemmas of Prims/*Thm.v, each named in the proof) + 7 examples in coq/theories/Properties/C14.v, each for EVERY offset, length, buffer, declared size and value (no '
          'bound; preconditions of the code\'s contract as guards). C (both target_endianness renderings): nunavutCopyBits copies '
          'exactly the addressed bits, leaves every other bit untouched, no out-of-range access (memmove path and bit loop); '
          'SaturateBufferFragmentBitLength; GetBits zero-extends and zero-pads; SetUxx/SetIxx/SetBit report a too-small buffer iff '
@@ -41,8 +41,20 @@ MANIFEST = dict(
          'patch design_notes/C14_wrap_fix.patch proved correct for every offset); the C theorems are proved for size_t of 32 and 64 bits '
          '(C14_size_t_widths); the float multiplications of Float16Pack/Unpack are proved equal to Flocq binary32 arithmetic on their '
          'whole domain (C14_f16_ieee_bridge); Python float members under the named struct packing law; invariant theorems for arbitrary '
-         'sequences of cursor operations incl. the fork/join/header/skip pattern (Python) and store/zero/pad sequences (C++). Tie: extracted models vs. the headers/module rendered by nnvg from /repo (C any/little/'
-         'big x asserts on/off, gcc + clang ASan/UBSan; C++14 (17, 20 thorough) x asserts, g++ + clang++ ASan; Python with NumPy) on the '
+         'sequences of cursor operations incl. the fork/join/header/skip pattern (Python) and store/zero/pad sequences (C++; round 7: no '
+         'premise on the cursor, staying below 2^64 follows from success). Round 7: C++ setUxx/setIxx equal the C functions at EVERY '
+         'offset and length (C14_cpp_set_uxx_every_offset); Python writers under a too-small buffer: the shipped text drops a one-byte '
+         'aligned slice write at the buffer end silently (C14_py_one_byte_at_end_refuted, known finding F-PY-SER-SILENT-DROP, fix '
+         'design_notes/C14_py_too_small_fix.patch), the patched text either lands exactly the requested bits or raises with the buffer '
+         'unchanged for every writer, cursor, length and buffer size (C14_py_too_small_reported); which text is in /repo is probed on '
+         'every run (witness call) and the matching model is used. Static ties: AST shape pin of 84 Python methods (two accepted shapes: '
+         'current, patched) and token-stream pin of every function of the rendered C and C++ headers for 25 option combinations (every '
+         'Jinja branch: endianness x asserts x omit_float; C++ standards/flavours incl. pmr and cetl) - an edit of a token breaks a proof '
+         'obligation (C14_py_support_shape_pinned, C14_c_cpp_support_token_streams_pinned). Tie: extracted models vs. the headers/module rendered by nnvg from /repo (C any/little/'
+         'big x asserts on/off, gcc + clang ASan/UBSan, + an omit-float rendering; C++14 (17, 20 thorough) x asserts, g++ + clang++ ASan, + '
+         'the target_endianness=little rendering and a c++17-pmr omit-float rendering; 32-bit size_t: three C and three C++ renderings '
+         'are COMPILED ONLY (clang --target=i386 -c -Werror -Wconversion/-Wshorten-64-to-32; nothing 32-bit can be linked or run here); '
+         'Python with NumPy) on the '
          'same calls / operation sequences, return values and full buffers with guard bytes compared; thorough: C vs C++ vs NumPy '
          'natively on all 2^32 binary32 inputs.',
     note='Trusted: Coq kernel; the hand models Prims/CPrims.v, CppPrims.v, PyPrims.v, F16.v (validated by the correspondence runs, not '
@@ -56,9 +68,11 @@ MANIFEST = dict(
          'array methods raise NotImplementedError, everything else is inherited); overlapping src/dst in copy (documented UB); Python '
          'float add/fetch reduce to the byte methods through struct semantics that are assumed, not proved (x.view(uint8)/frombuffer = '
          'little-endian image likewise); fetch_aligned_array_of_bits has no separate theorem (same slice + unpackbits lemmas as the '
-         'unaligned one); behaviour of the Python Serializer outside its '
-         'capacity contract (a 1-byte aligned write past the end is silently dropped by NumPy broadcasting - observed, outside the '
-         'documented contract); cetl flavour (cannot be compiled offline).',
+         'unaligned one); Python writers of two or more bytes that raise IndexError past the end may have stored a proper prefix of the '
+         'value before raising (current and patched text for add_aligned_u8/add_unaligned_bit: no store at all; the patch removes the '
+         'partial stores of the others); 32-bit targets are compiled, never executed (no 32-bit libc/loader; gcc -m32 cannot even '
+         'preprocess: <bits/libc-header-start.h> missing; clang uses the x86_64 glibc headers with an empty <gnu/stubs-32.h>); cetl '
+         'flavour: rendered and token-pinned (equal to the c++14 stream), cannot be compiled offline (CETL headers absent).',
     design='§5 C14')
 
 C_VARIANTS = [('any', False), ('any', True), ('little', False), ('little', True), ('big', False), ('big', True)]   # big: thorough tier only
@@ -1050,11 +1064,20 @@ def _render_and_build(job: tuple) -> tuple:
     p = core.run([core.PY, '-m', 'nunavut'] + nnvg_args + ['--outdir', outdir], env=core.repo_env(), timeout=120)
     if p.returncode != 0:
         return name, None, 'nnvg failed: ' + p.stdout[-1500:]
-    exe = os.path.join(outdir, 'drv_' + name)
+    exe = os.path.join(outdir, 'drv_' + name + ('.o' if '-c' in cc else ''))
     q = core.run(cc + ['-I', outdir, '-o', exe, src], timeout=300)
     if q.returncode != 0:
         return name, None, 'compile failed: ' + q.stdout[-3000:]
     return name, exe, q.stdout[-500:]
+
+
+CLANG32 = ['clang', '--target=i386-unknown-linux-gnu', '-c', '-O1', '-Wall', '-Wextra', '-Werror', '-isystem', os.path.join(HARNESS, 'c14_stub32xx'),
+           '-isystem', '/usr/include/x86_64-linux-gnu']
+CLANGXX32 = ['clang++', '--target=i386-unknown-linux-gnu', '-c', '-O1', '-Wall', '-Wextra', '-Werror', '-Wshorten-64-to-32', '-DC14_EXPECT_SIZE_T=4',
+             '-isystem', os.path.join(HARNESS, 'c14_stub32xx'), '-isystem', '/usr/include/c++/12', '-isystem', '/usr/include/x86_64-linux-gnu/c++/12',
+             '-isystem', '/usr/include/x86_64-linux-gnu']
+COMPILED_ONLY: typing.List[str] = []      # names of the 32-bit objects that compiled (nothing to run)
+FLOAT_COMMANDS = ('sf16', 'sf32', 'sf64', 'gf16', 'gf32', 'gf64', 'f16p', 'f16pb', 'f16pl', 'f16pr', 'f16u', 'f16ul')
 
 
 def build_c_targets(scratch: str, tier: str) -> typing.Tuple[dict, typing.List[str]]:
@@ -1071,13 +1094,27 @@ def build_c_targets(scratch: str, tier: str) -> typing.Tuple[dict, typing.List[s
         jobs.append((name, os.path.join(scratch, name), args, gcc, src))
         if a and e != 'big':
             jobs.append((name + '_asan', os.path.join(scratch, name + '_asan'), args, clang, src))
+        # the omit_float_serialization_support branch of the template: same driver without its float commands
+        if (e == 'any' and a) or (tier == 'thorough' and e == 'little' and not a):
+            jobs.append((name + '_omitfloat', os.path.join(scratch, name + '_omitfloat'), args + ['--omit-float-serialization-support'],
+                         gcc + ['-DC14_OMIT_FLOAT'], src))
+    # 32-bit size_t: COMPILE ONLY (clang --target=i386 -c; there is no 32-bit C library or loader in the sandbox, so nothing can be
+    # linked or run; gcc -m32 stops at <bits/libc-header-start.h>).  The strict probe instantiates every function with -Wconversion.
+    for e, a, f in (('any', False, False), ('little', True, False), ('any', True, True)):
+        name = 'c32_%s_%s%s' % (e, 'asserts' if a else 'noasserts', '_omitfloat' if f else '')
+        args = ['--target-language', 'c', '--generate-support', 'only', '--target-endianness', e] + (['--enable-serialization-asserts'] if a else []) + \
+               (['--omit-float-serialization-support'] if f else [])
+        jobs.append((name, os.path.join(scratch, name), args, CLANG32 + ['-std=c11', '-Wconversion', '-DNUNAVUT_ASSERT=assert'] +
+                     (['-DC14_OMIT_FLOAT'] if f else []), os.path.join(HARNESS, 'c14_probe32.c')))
     targets, errors = {}, []
     with concurrent.futures.ThreadPoolExecutor(max_workers=6) as ex:
         for name, exe, log in ex.map(_render_and_build, jobs):
             if exe is None:
                 errors.append('%s: %s' % (name, log))
+            elif name.startswith('c32_'):
+                COMPILED_ONLY.append(name)
             else:
-                targets[name] = {'exe': exe, 'model': 'c-little' if '_little_' in name else 'c-any'}
+                targets[name] = {'exe': exe, 'model': 'c-little' if '_little_' in name else 'c-any', 'omit_float': name.endswith('_omitfloat')}
     return targets, errors
 
 
@@ -1095,13 +1132,35 @@ def build_cpp_targets(scratch: str, tier: str) -> typing.Tuple[dict, typing.List
             if std == 'c++14' and not a:
                 clang = ['clang++', '-std=c++14', '-O1', '-g', '-fsanitize=address,undefined', '-fno-sanitize-recover=all', '-DEXACT_ALLOC']
                 jobs.append((name + '_asan', os.path.join(scratch, name + '_asan'), args, clang, src))
+    base = ['--target-language', 'cpp', '--experimental-languages', '--generate-support', 'only']
+    gxx = ['-O1', '-Wall', '-Wextra', '-pedantic', '-DNUNAVUT_ASSERT=assert']
+    # the remaining Jinja branches of cpp/support/serialization.j2: target_endianness == 'little', omit_float_serialization_support;
+    # and the pmr flavour (the cetl flavour needs the CETL headers, absent here: its rendering is covered by the token pin only)
+    jobs.append(('cpp_cpp14_little_asserts', os.path.join(scratch, 'cpp_cpp14_little_asserts'),
+                 base + ['--language-standard', 'c++14', '--target-endianness', 'little', '--enable-serialization-asserts'], ['g++', '-std=c++14'] + gxx, src))
+    jobs.append(('cpp_cpp17pmr_asserts_omitfloat', os.path.join(scratch, 'cpp_cpp17pmr_asserts_omitfloat'),
+                 base + ['--language-standard', 'c++17-pmr', '--enable-serialization-asserts', '--omit-float-serialization-support'],
+                 ['g++', '-std=c++17', '-DC14_OMIT_FLOAT'] + gxx, src))
+    if tier == 'thorough':
+        jobs.append(('cpp_cpp17pmr_noasserts', os.path.join(scratch, 'cpp_cpp17pmr_noasserts'), base + ['--language-standard', 'c++17-pmr'],
+                     ['g++', '-std=c++17'] + gxx, src))
+        jobs.append(('cpp_cpp14_little_noasserts_omitfloat', os.path.join(scratch, 'cpp_cpp14_little_noasserts_omitfloat'),
+                     base + ['--language-standard', 'c++14', '--target-endianness', 'little', '--omit-float-serialization-support'],
+                     ['g++', '-std=c++14', '-DC14_OMIT_FLOAT'] + gxx, src))
+    # 32-bit size_t: compile only (see build_c_targets)
+    for nm, extra, defs in (('cpp32_cpp14_noasserts', [], []), ('cpp32_cpp14_little_asserts', ['--target-endianness', 'little', '--enable-serialization-asserts'], []),
+                            ('cpp32_cpp14_asserts_omitfloat', ['--enable-serialization-asserts', '--omit-float-serialization-support'], ['-DC14_OMIT_FLOAT'])):
+        jobs.append((nm, os.path.join(scratch, nm), base + ['--language-standard', 'c++14'] + extra,
+                     CLANGXX32 + ['-std=c++14', '-DNUNAVUT_ASSERT=assert'] + defs, src))
     targets, errors = {}, []
     with concurrent.futures.ThreadPoolExecutor(max_workers=6) as ex:
         for name, exe, log in ex.map(_render_and_build, jobs):
             if exe is None:
                 errors.append('%s: %s' % (name, log))
+            elif name.startswith('cpp32_'):
+                COMPILED_ONLY.append(name)
             else:
-                targets[name] = {'exe': exe, 'model': 'cpp'}
+                targets[name] = {'exe': exe, 'model': 'cpp', 'omit_float': name.endswith('_omitfloat')}
     return targets, errors
 
 
@@ -1165,6 +1224,8 @@ def run_shard(job: dict) -> dict:
         mo = model_out.get(job.get('model_for_all') or t['model'])
         prev = None  # monotonicity of float16 packing along the (sorted) grid
         for i, got in enumerate(out[:len(lines)]):
+            if t.get('omit_float') and lines[i].split(' ', 1)[0] in FLOAT_COMMANDS:
+                continue     # rendering without float support: the driver has no such command (answers ERR), nothing to compare
             if lines[i].startswith('f16p '):
                 x = int(lines[i][5:])
                 if (x & 0x7FFFFFFF) <= 0x7F800000 and got.isdigit():
@@ -1304,7 +1365,7 @@ def main(chk: core.Check, replay: typing.Optional[str] = None) -> int:
     t0 = time.time()
     timing = {}
     # 1. proof obligations
-    res = core.coq_check('C14', ['pin_c14py'])
+    res = core.coq_check('C14', ['pin_c14py', 'pin_c14c'])
     timing['coq_s'] = round(time.time() - t0, 1)
     chk.proof_coverage(res, [
         'hand models coq/theories/Prims/CPrims.v (C header), CppPrims.v (C++ bitspan), PyPrims.v (Python Serializer/Deserializer), F16.v '
@@ -1316,7 +1377,7 @@ def main(chk: core.Check, replay: typing.Optional[str] = None) -> int:
         'library Reals: ClassicalDedekindReals.sig_forall_dec, sig_not_dec, functional_extensionality_dep, Classical_Prop.classic); '
         'no other theorem depends on them',
         'size_t width: theorems proved for M = 2^32 and M = 2^64 (CPrimsW.v); only the 64-bit instance is run against compiled code '
-        '(no 32-bit runtime in the sandbox)',
+        '(no 32-bit runtime in the sandbox); three C and three C++ renderings are compiled to i386 objects with clang -Werror -Wconversion / -Wshorten-64-to-32 (x86_64 glibc headers + an empty gnu/stubs-32.h stand-in)',
         'NumPy/struct semantics used by the Python model: uint8 arithmetic, scalar store (OverflowError above 255), slice assignment '
         '(fits or raises; a length-1 source broadcasts), packbits/unpackbits(bitorder="little"), x.view(uint8) = little-endian image, '
         'struct.pack/unpack("<e|f|d") (Section variable float_to_bytes)',
@@ -1356,7 +1417,7 @@ def main(chk: core.Check, replay: typing.Optional[str] = None) -> int:
         if py_drop_live and chk.is_known(DROP_ID):
             chk.report_known(DROP_ID)
         if not py_drop_live:
-            py_targets = {k: dict(v, model='py-chk') for k, v in py_targets.items()}     # fixed in /repo ba46e0a: if it comes back it is a violation
+            py_targets = {k: dict(v, model='py-chk') for k, v in py_targets.items()}     # capacity test present: model of the patched writers
     timing['builds_s'] = round(time.time() - t0 - timing['coq_s'], 1)
     t1 = time.time()
     # 3. cases
@@ -1374,7 +1435,8 @@ def main(chk: core.Check, replay: typing.Optional[str] = None) -> int:
     # the Python target converts halves with struct (ties to even): property oracle only, no model in the loop
     py_f16 = {k: dict(v, model=None) for k, v in py_targets.items()}
     f16_sample = [l for i, l in enumerate(lines) if l.startswith('f16u ') or (l.startswith('f16p ') and i % (4 if chk.tier == 'thorough' else 16) == 0)]
-    grid_targets = {k: v for k, v in all_targets.items() if k in ('c_any_noasserts', 'c_little_asserts_asan', 'cpp_cpp14_noasserts')} or all_targets
+    grid_targets = {k: v for k, v in all_targets.items() if k in ('c_any_noasserts', 'c_little_asserts_asan', 'cpp_cpp14_noasserts')} or \
+                   {k: v for k, v in all_targets.items() if not v.get('omit_float')}
     cpp_noassert = {k: v for k, v in cpp_targets.items() if 'noasserts' in k}
     is_x = lambda l: l[0] == 'x'
     is_xsub = lambda l: l.startswith(('xsub', 'xat', 'xob', 'xmis', 'xso'))
@@ -1451,6 +1513,7 @@ def main(chk: core.Check, replay: typing.Optional[str] = None) -> int:
         'samples': [lines[i] for i in range(0, len(lines), max(1, len(lines) // 25))][:30],
         'traces_validated_against_impl': sum(r['compared_model'] for r in results),
         'distribution': {'calls': len(lines), 'by_command': kinds, 'by_branch': branches, 'implementation_builds': sorted(all_targets) + sorted(py_targets),
+                         'compiled_only_32bit': sorted(COMPILED_ONLY),
                          'copy_strata_src_mod8_dst_mod8_len_mod8': '%d of 512' % len(strata),
                          'float16_pack_C_vs_struct_e': f16_vs_struct,
                          'float16_native_sweep_no_model': native,
